@@ -107,8 +107,7 @@ RECURSIVE LastExpMark(_, _, _)
 LastExpMark(s, ab, i) ==      \* position of the last exponent marker at index > 1 ('@'; 'e'/'E' only when they are not digits), 0 if none
    IF i <= 1 THEN 0
    ELSE IF Ch(s, i) = "@" \/ (ab <= 10 /\ Ch(s, i) \in {"e", "E"}) THEN i ELSE LastExpMark(s, ab, i - 1)
-RECURSIVE FirstCh(_, _, _)
-FirstCh(s, c, i) == IF i > Len(s) THEN 0 ELSE IF Ch(s, i) = c THEN i ELSE FirstCh(s, c, i + 1)
+FirstCh(s, c, i) == StrFind(s, c)          \* (i = 1) BigZ: TLA+ definition + accelerator
 (* The float grammar of the manual: optional leading white space, optional '-', digits of the base with at most one
    point and at least one digit, optionally an exponent marker, an optional sign and exponent digits (decimal for a
    positive base, in the base itself for a negative one).  White space elsewhere, and text after the exponent, are
